@@ -16,7 +16,8 @@ RULE = ("frames of 56/112 bits (uniform, all-0/all-1, sparse, dense, the suite's
         "judged three-way against a bit-serial division by 0x1FFF409 and crc_legacy; parity closure; implementation "
         "linearity; direct error injection (all weight<=3 patterns, all bursts <=12 at every offset, sampled weight 4-5 "
         "and bursts 13-24) on valid frames; syndrome closure: no 1..5 single-bit syndromes of the implementation XOR to 0. "
-        "non-trivial = frame not all-zero (and, for error cases, the error touches the data field); distinct by case hash")
+        "non-trivial = frame not all-zero (and, for error cases, the error touches the data field); distinct by case hash"
+        ' Also: 2000 real DF17 frames (leg corpus), replacement parity fields copied from the data part, keyword and positional encode flag, four concurrent callers (leg threads).')
 ASSUMPTIONS = ["hex strings of exactly 14 or 28 digits",
                "completeness of the weight<=5 detection claim over all frames rests on implementation linearity, which is sampled (leg linearity)"]
 
